@@ -94,12 +94,7 @@ func totality(v verdict, spelling string, sh shape) *vk.Finding {
 		case v.ExitCode == exitMemoryCeiling || strings.Contains(v.Stderr, "C11-MEMORY-CEILING"):
 			return vk.F("memory-ceiling", "%s spelling: worker exceeded the %d MiB RSS ceiling after %d ms: %s", spelling, memCeilingBytes>>20, v.MS, clip(v.Stderr, 300))
 		case strings.Contains(v.Stderr, "stack overflow") || strings.Contains(v.Stderr, "goroutine stack exceeds"):
-			cl := "stack-overflow-" + v.Top
-			if v.Top == "gen-writer-generate" && sh.Fault == "cycle" && sh.under("parameters") {
-				// template execution recursing over a parameter type that contains itself
-				cl += "-cyclic-parameter-schema"
-			}
-			return vk.F(cl, "%s spelling: fatal stack overflow (goroutine stack ceiling %d MiB) killed the process\n%s", spelling, maxStackBytes>>20, clip(v.Stderr, 1800))
+			return vk.F("stack-overflow-"+v.Top, "%s spelling: fatal stack overflow (Go's default 1 GiB goroutine stack) killed the process\n%s", spelling, clip(v.Stderr, 1800))
 		case strings.Contains(v.Stderr, "out of memory"):
 			return vk.F("out-of-memory", "%s spelling: fatal out of memory\n%s", spelling, clip(v.Stderr, 1200))
 		default:
